@@ -578,6 +578,7 @@ def for_turn_rule(text):
     e = match_close(text, b)
     v = m.group(1)
     return text[:m.start()] + 'int %s = *%s_p; if (%s) { %s %s; } *%s_p = %s;' % (v, v, m.group(2), text[b:e + 1], m.group(3), v, v) + text[e + 1:], 1
+for_turn_rule.must_fire = True
 SCAN_PRE = r'''
 #include "vf_base.h"
 int nondet_int(void);
